@@ -1819,6 +1819,32 @@ pub fn c05(r: &mut Rng, out: &mut Out, n: usize) {
             }
             continue;
         }
+        if r.below(40) == 0 {
+            // the test ray runs exactly ALONG an edge: a rectangle with a notch in the side that carries the first edge, queried
+            // on the line of that side (in the notch mouth, beyond the far corner, and just inside the notch)
+            let f = any_frame(r);
+            let (w, h) = (r.range(4., 12.) as f64, r.range(2., 6.) as f64);
+            let (n0, n1, nd) = (w * r.range(0.3, 0.4) as f64, w * r.range(0.55, 0.7) as f64, h * r.range(0.2, 0.5) as f64);
+            let o: Vec<P2> = vec![(0., 0.), (n0, 0.), (n0, nd), (n1, nd), (n1, 0.), (w, 0.), (w, h), (0., h)];
+            let o: Vec<P2> = if r.bool() { o } else {
+                let mut t = vec![o[1], o[0]];
+                for k in (2..o.len()).rev() { t.push(o[k]); }
+                t
+            };
+            let pts = placed(&f, &o);
+            for _ in 0..3 {
+                let q2 = match r.below(5) {
+                    0 => (0.5 * (n0 + n1), 0.),
+                    1 => (n0 + 0.25 * (n1 - n0), 0.),
+                    2 => (w + 1., 0.),
+                    3 => (0.5 * (n0 + n1), 0.5 * nd),
+                    _ => (n1 - 0.1 * (n1 - n0), 0.),
+                };
+                tp_line(out, &pts, place_q(&f, (q2, 0.)));
+                emitted += 1;
+            }
+            continue;
+        }
         if r.below(16) == 0 {
             // the test ray (from the first edge's midpoint through the query) passes exactly through a vertex A, and the edge
             // that leaves A (or arrives at it) makes an angle eps with the ray: below about 1e-4 rad the two count as parallel
@@ -2090,8 +2116,12 @@ pub fn c11(r: &mut Rng, out: &mut Out, n: usize) {
                     // then passes exactly through a vertex of the outline (the vertex rule of the crossing count decides)
                     let m = mid(o[0], o[1]);
                     let i = 2 + r.below(o.len() - 2);
-                    let p = lerp(m, o[i], r.pick(&[0.3, 0.5, 0.7]));
-                    let q1 = lerp(p, c, 0.15);
+                    // (before the vertex: inside for the convex families; beyond it: the vertex lies BEHIND the tested point on
+                    // the ray's line and must not be counted)
+                    let t = r.pick(&[0.3, 0.5, 0.7, 1.05, 1.15]);
+                    let p = lerp(m, o[i], t);
+                    // beyond the vertex only `p` is outside: the other two vertices are well inside
+                    let q1 = lerp(p, c, if t > 1. { 0.4 } else { 0.15 });
                     let q2 = (q1.0 + 0.06 * rad, q1.1 + 0.045 * rad);
                     (true, placed(&f, &[p, q1, q2]))
                 }
